@@ -3,7 +3,7 @@ EXTENDS Queries, Json
 VARIABLE trail
 GInit == Init /\ trail = <<>>
 GNext == /\ Next
-         /\ trail' = IF pc \in {"exit1", "exit2"} THEN Append(trail, mode')
+         /\ trail' = IF pc \in {"exit1", "exit2"} THEN Append(trail, IF kept' THEN mode' \o "+kept" ELSE mode')
                      ELSE IF pc = "hb" THEN Append(trail, hb') ELSE trail
 GSpec == GInit /\ [][GNext]_<<vars, trail>>
 EmitB == (pc = "done") => PrintT("B " \o ToJson([trail |-> trail, code |-> code, final |-> mode]))
